@@ -1,3 +1,5 @@
+mod attrs_gen;
+mod cfgx;
 mod common;
 mod corpus_gen;
 mod json;
@@ -166,6 +168,64 @@ fn seqx_replay(path: &str, property: &str) -> i32 {
     } else {
         0
     }
+}
+
+fn cfgx_main(args: &Args) -> i32 {
+    if let Some(path) = args.get("replay") {
+        let src = std::fs::read_to_string(path).expect("read replay file");
+        let j = json::parse(&src).expect("parse replay file");
+        let j = j.get("replay").cloned().unwrap_or(j);
+        let fid = j.get("function").and_then(|x| x.as_i64()).expect("function") as u32;
+        let af = attrs_gen::ATTRS.iter().find(|a| a.id == fid).expect("attribute function");
+        let ops: Vec<cfgx::AOp> = j.get("ops").and_then(|x| x.as_arr()).unwrap().iter().filter_map(|o| cfgx::AOp::parse(o.as_str()?)).collect();
+        let choices: Vec<usize> = j.get("choices").and_then(|x| x.as_arr()).unwrap().iter().map(|x| x.as_i64().unwrap() as usize).collect();
+        let mut runs = Vec::new();
+        for _ in 0..2 {
+            let mut lines: Vec<String> = cfgx::registration_checks(af).into_iter().map(|f| format!("    FINDING C19/{}: {}", f.monitor, f.detail)).collect();
+            let ((obs, fs), _) = cfgx::run_history(af, &ops, &choices);
+            lines.extend(ops.iter().zip(obs.iter()).map(|(o, x)| format!("{:<10} -> {x}", o.render())));
+            lines.extend(fs.iter().map(|f| format!("    FINDING C19/{}: {}", f.monitor, f.detail)));
+            runs.push(lines);
+        }
+        println!("#[..({})] fn {}", af.attrs, af.fn_name);
+        for l in &runs[0] {
+            println!("{l}");
+        }
+        if runs[0] != runs[1] {
+            println!("MACHINERY-FAILURE: replay is not deterministic");
+            return 3;
+        }
+        let bad = runs[0].iter().any(|l| l.contains("FINDING"));
+        println!("replayed twice with identical observations; violation reproduced: {bad}");
+        return if bad { 1 } else { 0 };
+    }
+    let thorough = args.get("tier") == Some("thorough");
+    let shard = args.shard();
+    for (i, af) in attrs_gen::ATTRS.iter().enumerate() {
+        if i % shard.1 != shard.0 {
+            continue;
+        }
+        let t0 = std::time::Instant::now();
+        let r = cfgx::explore_attr(af, thorough);
+        emit(
+            "ATTR",
+            J::obj()
+                .set("function", af.fn_name)
+                .set("flavour", af.flavour.name())
+                .set("attributes", af.attrs)
+                .set("histories", r.histories)
+                .set("runs", r.runs)
+                .set("steps", r.steps)
+                .set("distinct_observations", r.distinct_obs)
+                .set("sample", r.sample.clone())
+                .set("wall_s", t0.elapsed().as_secs_f64()),
+        );
+        for v in &r.violations {
+            emit("VIOLATION", v.to_json());
+        }
+    }
+    emit("DONE", J::obj().set("functions_total", attrs_gen::ATTRS.len()));
+    0
 }
 
 fn shapex_run(sh: &shapes::Shape, thorough: bool) -> (shapes::ShapeCtx, u64, shapes::ShapeCtx, u64, Option<usize>) {
@@ -440,6 +500,10 @@ fn main() {
             seqx_main(&args)
         }
         "thrx" => thrx_main(&args),
+        "cfgx" => {
+            vsched::sequential_mode(true);
+            cfgx_main(&args)
+        }
         "shapex" => {
             vsched::sequential_mode(true);
             shapex_main(&args)
